@@ -177,3 +177,61 @@ Theorem model_is_code_time_operators : forall t,
              /\ gen_Time___rsub___foreign t x = Raise E_NotImplemented).
 Proof. exact gen_Time_operators_eq. Qed.
 Print Assumptions model_is_code_time_operators.
+
+(* ---- timedelta SUBCLASS operands (pendulum.Duration, AbsoluteDuration, Interval) of + / - / add_timedelta / subtract_timedelta.
+   Model/TimeOperand.v: the object is C09's / C10's model of the class (Model/Duration.v, proved equal to the translated duration.py;
+   Model/DurationOps.interval_new), Time reads x.days / x.seconds / x.microseconds AS THAT CLASS PRESENTS THEM (days: the native slot for
+   Duration / AbsoluteDuration, the overridden sign-magnitude _days for Interval; seconds / microseconds: the class's own sign-magnitude
+   components) and hands them to the translated guard.  N is the native timedelta value in microseconds.  These three depend on the exactness
+   of Duration.__new__'s float normalisation (Proofs/FloatRoundTripC09.v, Flocq), hence on the standard real-number axioms. *)
+From PV Require Import Spec.TdFloat Model.Duration Model.DurationOps Model.TimeOperand Proofs.C09Facts Proofs.C20OperandFacts.
+
+(* whatever the class, a non-zero presented `days` is rejected *)
+Theorem subclass_operand_days_rejected : forall t k x, td_days (operand_present k x) <> 0 ->
+  time_add_timedelta t (operand_present k x) = Raise E_TypeError /\ time_subtract_timedelta t (operand_present k x) = Raise E_TypeError.
+Proof. exact (fun t k x => presented_rejected t (operand_present k x)). Qed.
+Print Assumptions subclass_operand_days_rejected.
+
+(* Duration(days, seconds, us, ms, minutes, hours, weeks, years, months): rejected exactly when the normal form of its native value
+   (years * 365 + months * 30 days included) has days <> 0 — every span of 24 h or more, every negative one —; otherwise the exact shift
+   modulo 24 h by that value, although the class's seconds / microseconds are those of (native - year/month part), of either sign *)
+Theorem duration_operand_spec : forall days seconds us ms mi h w years months N t,
+  valid_time t = true ->
+  td_of_int_args (days + YM years months) seconds us ms mi h w = Ok N ->
+  D9 N (YM years months * 86400) ->
+  (0 <= N < us_day ->
+     time_add_operand t 0 days seconds us ms mi h w years months = Ok (wrap t N) /\
+     time_subtract_operand t 0 days seconds us ms mi h w years months = Ok (wrap t (- N))) /\
+  (~ (0 <= N < us_day) ->
+     time_add_operand t 0 days seconds us ms mi h w years months = Raise E_TypeError /\
+     time_subtract_operand t 0 days seconds us ms mi h w years months = Raise E_TypeError).
+Proof. exact duration_operand. Qed.
+Print Assumptions duration_operand_spec.
+
+(* AbsoluteDuration: the native value keeps its sign and excludes years / months *)
+Theorem absolute_duration_operand_spec : forall days seconds us ms mi h w years months x t,
+  valid_time t = true ->
+  absolute_duration_new days seconds us ms mi h w years months = Ok x -> Z.abs (d_N x) < B33 ->
+  td_of_int_args days seconds us ms mi h w = Ok (d_N x) /\
+  (0 <= d_N x < us_day ->
+     time_add_operand t 1 days seconds us ms mi h w years months = Ok (wrap t (d_N x)) /\
+     time_subtract_operand t 1 days seconds us ms mi h w years months = Ok (wrap t (- d_N x))) /\
+  (~ (0 <= d_N x < us_day) ->
+     time_add_operand t 1 days seconds us ms mi h w years months = Raise E_TypeError /\
+     time_subtract_operand t 1 days seconds us ms mi h w years months = Raise E_TypeError).
+Proof. exact absolute_operand. Qed.
+Print Assumptions absolute_duration_operand_spec.
+
+(* Interval of span delta = end - start (below 2^33 s): it presents the sign-magnitude whole days of its span, so it is rejected exactly when
+   |delta| >= 24 h and shifts by delta modulo 24 h otherwise — INCLUDING a negative span shorter than a day, which an equal plain timedelta or
+   Duration (normal form days = -1: timedelta_days_rejected, duration_operand_spec) is not *)
+Theorem interval_operand_spec : forall delta a b c d e f g h t,
+  valid_time t = true -> Z.abs delta < B33 ->
+  (Z.abs delta < us_day ->
+     time_add_operand t 2 delta a b c d e f g h = Ok (wrap t delta) /\
+     time_subtract_operand t 2 delta a b c d e f g h = Ok (wrap t (- delta))) /\
+  (us_day <= Z.abs delta ->
+     time_add_operand t 2 delta a b c d e f g h = Raise E_TypeError /\
+     time_subtract_operand t 2 delta a b c d e f g h = Raise E_TypeError).
+Proof. exact interval_operand. Qed.
+Print Assumptions interval_operand_spec.
